@@ -1,5 +1,6 @@
 import CalicoVerif.Util.Proto
 import CalicoVerif.Model.C18
+import CalicoVerif.Model.C18CM
 /-! Driver for C18 (keys = Nat, values = payload.id).  Ops:
   `new p|d|s` (valuesEqual: payload only | payload and id | always true)
   `dset k p id` `ddel k` `ddelall` `dget k` `dsetr lo n p id0`
@@ -8,6 +9,11 @@ import CalicoVerif.Model.C18
   `uiter <default act> k:a ...` `xiter <default act> k:a ...`   (acts 0 noop 1 update 2 stop)
   `ubatch <chunk> k ...` `xbatch <chunk> k ...`                  (failing keys)
   `dump`
+  cachingmap over a mock dataplane map (valuesEqual = `==`):
+  `cmnew <batched 0|1>` `cmdset k p id` `cmddel k` `cmddelall` `cmload <fail 0|1>`
+  `cmau <loadFails> k …` `cmad <loadFails> k …` `cmaa <loadFails> d:k … u:k …` (keys whose write fails) → `ok`|`err`
+  `cmoob k` (delete k from the backing map behind CachingMap's back)
+  `cmdump` → `D[…] P[…] R[…] loaded=<0|1>`
 -/
 open CalicoVerif CalicoVerif.C18 CalicoVerif.Proto
 
@@ -17,6 +23,7 @@ abbrev T := Tracker Nat Val
 structure St where
   mode : String
   t : T
+  cm : CM Nat Val := CM.new false
 
 def eqvOf (mode : String) : Val → Val → Bool :=
   if mode = "p" then fun a b => a.1 == b.1
@@ -68,6 +75,16 @@ def actFn (dflt : Act) (ov : List (Nat × Act)) (k : Nat) : Act :=
   | none => dflt
 
 def range (lo n : Nat) : List Nat := (List.range n).map (· + lo)
+
+def cmEqv : Val → Val → Bool := fun a b => a.1 == b.1 && a.2 == b.2
+def showErr (e : Bool) : String := if e then "err" else "ok"
+
+/-- `d:k` / `u:k` tokens → (keys failing on delete, keys failing on update). -/
+def parseTagged (ws : List String) : Option (List Nat × List Nat) :=
+  ws.foldlM (fun (acc : List Nat × List Nat) w => match w.splitOn ":" with
+    | ["d", k] => k.toNat?.map (fun k => (k :: acc.1, acc.2))
+    | ["u", k] => k.toNat?.map (fun k => (acc.1, k :: acc.2))
+    | _ => none) ([], [])
 
 /-- mode s (SetDeltaTracker) has no values: they are normalised to 0.0. -/
 def mk (mode : String) (p i : Nat) : Val := if mode = "s" then (0, 0) else (p, i)
@@ -137,6 +154,38 @@ def step (s : St) (line : String) : St × String :=
       ({ s with t := xBatched t batchSize F c (keys t.dn) }, s!"applied={ap.length}")
     | _, _ => (s, "bad-op")
   | ["dump"] => (s, dump t)
+  | ["cmnew", b] => match b.toNat? with
+    | some b => ({ s with cm := CM.new (b != 0) }, "ok")
+    | none => (s, "bad-op")
+  | "cmdset" :: a => match parseNats a with
+    | some [k, p, i] => ({ s with cm := (s.cm.step cmEqv (.dSet k (p, i))).1 }, "ok")
+    | _ => (s, "bad-op")
+  | ["cmddel", a] => match a.toNat? with
+    | some k => ({ s with cm := (s.cm.step cmEqv (.dDel k)).1 }, "ok")
+    | none => (s, "bad-op")
+  | ["cmoob", a] => match a.toNat? with
+    -- out-of-band deletion from the backing map (not through CachingMap): the cache goes stale until the next load
+    | some k => ({ s with cm := { s.cm with real := del s.cm.real k } }, "ok")
+    | none => (s, "bad-op")
+  | ["cmddelall"] => ({ s with cm := (s.cm.step cmEqv .dDelAll).1 }, "ok")
+  | ["cmload", f] => match f.toNat? with
+    | some f => let r := s.cm.step cmEqv (.load (f != 0)); ({ s with cm := r.1 }, showErr r.2)
+    | none => (s, "bad-op")
+  | "cmau" :: lf :: fk => match lf.toNat?, parseNats fk with
+    | some lf, some fk =>
+      let r := s.cm.step cmEqv (.applyUpdates (lf != 0) (fun k => fk.contains k)); ({ s with cm := r.1 }, showErr r.2)
+    | _, _ => (s, "bad-op")
+  | "cmad" :: lf :: fk => match lf.toNat?, parseNats fk with
+    | some lf, some fk =>
+      let r := s.cm.step cmEqv (.applyDeletions (lf != 0) (fun k => fk.contains k)); ({ s with cm := r.1 }, showErr r.2)
+    | _, _ => (s, "bad-op")
+  | "cmaa" :: lf :: fk => match lf.toNat?, parseTagged fk with
+    | some lf, some (fd, fu) =>
+      let r := s.cm.step cmEqv (.applyAll (lf != 0) (fun k => fd.contains k) (fun k => fu.contains k))
+      ({ s with cm := r.1 }, showErr r.2)
+    | _, _ => (s, "bad-op")
+  | ["cmdump"] =>
+    (s, s!"D[{showKVs (desiredKVs s.cm.t)}] P[{showKVs (dataplaneKVs s.cm.t)}] R[{showKVs s.cm.real}] loaded={showBool s.cm.loaded}")
   | _ => (s, "bad-op")
 
 def main : IO Unit := run step { mode := "d", t := Tracker.new }
